@@ -557,6 +557,7 @@ def run(ctx):
     _oracle_basis(ctx, rng)
     _oracle_operand(ctx, rng)
     _oracle_sequences(ctx, rng)
+    _oracle_api(ctx, rng)
     _oracle_periodic(ctx, rng, cases_out=None)
 
 
@@ -794,6 +795,94 @@ def _oracle_sequences(ctx, rng):
                              f'one on a fresh mesh object: {what}' + (f' (N = {got["N"]} instead of {want["N"]})' if isinstance(got, dict) and isinstance(want, dict) else ''),
                              {'kind': kind, 'p': p.tolist(), 't': t.tolist(), 'first': na, 'second': nb, 'element': nm})
                     break
+
+
+API_C04 = {
+    'covered_before': ['Dofs.__init__ (offset)', 'Dofs tables nodal/edge/facet/interior/element_dofs, N', 'AbstractBasis.__init__ (doflocs scatter, Nbfun)',
+                       'AbstractBasis.nodal_dofs/edge_dofs/element_dofs/N', 'Element._bfun_counts', 'ElementVector (dim argument), ElementComposite '
+                       '(_deduce_bfun, doflocs), ElementDG', 'CellBasis(mesh, elem, intorder)', 'MeshDG.init_tensor(periodic=)', 'BilinearForm.assemble '
+                       '(sparsity)', 'Mesh.oriented/refined/translated/scaled/mirrored/restrict/with_* as operand checks'],
+    'covered_now': ['AbstractBasis.facet_dofs / interior_dofs properties', 'AbstractBasis.with_element', 'CellBasis.with_element', 'CellBasis.with_elements',
+                    'CellBasis.boundary', 'AbstractBasis.zeros / ones / zero_w', 'AbstractBasis.split_indices / split_bases / split', 'Element.condensed',
+                    'ElementComposite.dim', 'Basis(..., dofs=) (shared Dofs object)', 'Basis(..., elements=) / FacetBasis(facets=) element_dofs columns',
+                    'DofsView.__len__ / __add__ / sort'],
+    'out_of_scope': {'Dofs.decompose / l2g / loc': 'PETSc domain decomposition (needs petsc4py, not installed)', 'AbstractBasis.interpolate / project / '
+                     'refinterp / probes / interpolator / point_source': 'evaluation of functions (C01/C06/C14)', 'plot/draw': 'visualisation',
+                     'Element.gbasis / lbasis / orient': 'shape functions (C09/C03)', 'AbstractBasis.quadrature / default_parameters / global_coordinates': 'integration data (C02)',
+                     'AbstractBasis.__mul__ / __matmul__': 'composite bases (C19)'}}
+
+
+def _oracle_api(ctx, rng):
+    """thin wrappers around the numbering: every derived basis has the tables of the basis it forwards to"""
+    import skfem
+    import skfem.element as E
+    from skfem.assembly import Basis, FacetBasis
+    cfg = [('tri', E.ElementTriP2, E.ElementTriP1), ('quad', E.ElementQuad2, E.ElementQuad1), ('tet', E.ElementTetP2, E.ElementTetP1),
+           ('hex', E.ElementHex2, E.ElementHex1), ('line', E.ElementLineP2, E.ElementLineP1)]
+    for kind, e2, e1 in cfg:
+        m, info = M.gen_mesh(rng, kind, maxcells=8)
+        data = {'kind': kind, 'p': m.p.tolist(), 't': m.t.tolist()}
+        b = Basis(m, e2(), intorder=2)
+        ctx.count(('api', kind, m.t.tolist()), nontrivial=True)
+
+        def bad(what, msg):
+            ctx.fail(f'api:{what}', f'{type(m).__name__}/{e2.__name__}: {what}: {msg}', dict(data, call=what))
+        if not (np.array_equal(b.facet_dofs, b.dofs.facet_dofs) and np.array_equal(b.interior_dofs, b.dofs.interior_dofs)):
+            bad('AbstractBasis.facet_dofs/interior_dofs', 'properties differ from the Dofs tables')
+        fresh1 = Basis(M.build(kind, m.p.copy(), np.asarray(m.t).copy()), e1(), intorder=2)
+        w = b.with_element(e1())
+        if _tables(w) != _tables(fresh1) or w.mesh is not m:
+            bad('with_element', 'tables differ from a new Basis with that element')
+        nt = m.t.shape[1]
+        Esub = np.unique(rng.integers(0, nt, size=max(1, nt // 2))).astype(np.int32)
+        we = b.with_elements(Esub)
+        if not (np.array_equal(we.element_dofs, np.asarray(b.dofs.element_dofs)[:, Esub]) and we.N == b.N and np.array_equal(we.nodal_dofs, b.nodal_dofs)):
+            bad('with_elements', 'element_dofs is not the column subset / N or the entity tables changed')
+        be = Basis(m, e2(), elements=Esub, intorder=2)
+        if not np.array_equal(be.element_dofs, we.element_dofs):
+            bad('Basis(elements=)', 'differs from with_elements')
+        fb = b.boundary()
+        bf = m.boundary_facets()
+        if not (fb.N == b.N and np.array_equal(fb.element_dofs, np.asarray(b.dofs.element_dofs)[:, m.f2t[0, bf]])):
+            bad('boundary', 'the facet basis does not carry the DOF columns of the cells behind the boundary facets')
+        f2 = FacetBasis(m, e2(), facets=bf[:2], intorder=2)
+        if not np.array_equal(f2.element_dofs, np.asarray(b.dofs.element_dofs)[:, m.f2t[0, bf[:2]]]):
+            bad('FacetBasis(facets=)', 'element_dofs columns are not those of the cells behind the facets')
+        shared = Basis(m, e2(), dofs=b.dofs, intorder=2)
+        if _tables(shared) != _tables(b):
+            bad('Basis(dofs=)', 'tables differ when the Dofs object is passed in')
+        if not (len(b.zeros()) == b.N and len(b.ones()) == b.N and float(b.ones().sum()) == b.N and float(abs(b.zeros()).sum()) == 0.0):
+            bad('zeros/ones', 'length is not N')
+        # split: vector and composite bases partition 0..N-1 by component
+        for en, el in (('ElementVector', E.ElementVector(e2())), ('composite', e2() * e1())):
+            bb = Basis(m, el, intorder=2)
+            ix = bb.split_indices()
+            allix = np.concatenate(ix)
+            if sorted(allix.tolist()) != list(range(bb.N)):
+                bad(f'split_indices({en})', 'the component index sets do not partition 0..N-1')
+            sb = bb.split_bases()
+            comp = [e2()] * int(el.dim) if en == 'ElementVector' else [e2(), e1()]
+            for k, (sbk, ek) in enumerate(zip(sb, comp)):
+                ref = Basis(M.build(kind, m.p.copy(), np.asarray(m.t).copy()), type(ek)(), intorder=2)
+                if sbk.N != ref.N or len(ix[k]) != ref.N:
+                    bad(f'split_bases({en})', f'component {k} has N = {sbk.N}, its index set {len(ix[k])}, a scalar basis of that element {ref.N}')
+            x = rng.random(bb.N)
+            parts = bb.split(x)
+            if any(not np.array_equal(xk, x[ixk]) for (xk, _), ixk in zip(parts, ix)):
+                bad(f'split({en})', 'the split vectors are not x[split_indices]')
+        # condensed: interior-only and the rest, numbered separately
+        ec = {'tri': E.ElementTriCCR, 'tet': E.ElementTetCCR}.get(kind, e2)       # an element WITH interior DOFs
+        ei, eo = ec().condensed()
+        Di, Do = Basis(m, ei, intorder=2), Basis(m, eo, intorder=2)
+        if Di.N + Do.N != Basis(m, ec(), intorder=2).N or oracle_dofs(m, eo, Do.dofs) or (int(ei.interior_dofs) and oracle_dofs(m, ei, Di.dofs)):
+            bad('Element.condensed', f'N_interior + N_rest = {Di.N} + {Do.N} != {b.N} or a part is not gap-free / shared exactly')
+        # DofsView conveniences
+        v = b.get_dofs()
+        if len(v) != len(v.flatten()) or (v + v).flatten().tolist() != (v | v).flatten().tolist() or sorted(v.sort().tolist()) != v.flatten().tolist():
+            bad('DofsView.__len__/__add__/sort', 'len / + / sort disagree with flatten / |')
+    if int((E.ElementTetN1() * E.ElementTetP1()).dim) != 3:
+        ctx.fail('api:ElementComposite.dim', 'dim of a composite on tetrahedra is not 3', {})
+    ctx.extra['api_coverage'] = API_C04
 
 
 def _oracle_periodic(ctx, rng, cases_out=None):
